@@ -12,7 +12,12 @@ TMissing == /\ l <= Len(TraceLog) /\ Ev.e = "Missing" /\ l' = l + 1
                                ELSE IF Dev_QuotedNumericFiller(o, Ev.kind, Ev.sev, Ev.wclass) THEN "Dev_QuotedNumericFiller" ELSE "")
                /\ (Ev.exit # ExitOf(Ev.sev)) => Report("exit", "")
                /\ (~Ev.others_ok) => Report("confinement", "")
+(* C03: a file with one violation is never clean, the reference tool exits non-zero, other instances are intact *)
+TFault == /\ l <= Len(TraceLog) /\ Ev.e = "Fault" /\ l' = l + 1
+          /\ (~Detected(Ev.sev, Ev.exit)) => Report("undetected", "")
+          /\ (Ev.toolexit = 0) => Report("tool-exit-0", "")
+          /\ (~Ev.confined) => Report("confinement", "")
 TInit == l = 1
-TNext == TMissing
+TNext == TMissing \/ TFault
 TraceAccepted == TLCGet("stats").diameter - 1 = Len(TraceLog)
 ====
